@@ -102,6 +102,8 @@ def _backend_files(crate):
 
 
 _reg(Group("v4", gen=_gen_backend(_backend_files("paseto-v4")), stubbing=True))
+_reg(Group("v3", gen=_gen_backend(_backend_files("paseto-v3")), stubbing=True))
+_reg(Group("v2", gen=_gen_backend(_backend_files("paseto-v2")), stubbing=True))
 
 def _gen_json(g):
     g.encoded_files = []
@@ -176,3 +178,352 @@ PROPS["C19"] = Prop(
     models=["cargo's feature resolution modelled as: enabled set = closure of the selected set under the [features] edges; dep:x enabled iff some enabled feature lists it; x?/f active iff listed and x enabled"],
     assumptions=["cargo check success == the crate builds for that feature set", "z3 (cross-checked with cvc5 on the same SMT-LIB2 text)"],
     level="other", extra_runner=_c19_runner)
+
+
+# ------------------------------------------------------------------------------------------------
+# L2 tables (per backend), derived mechanically from harness/common/inst.rs
+# ------------------------------------------------------------------------------------------------
+TOK = [("pos", "usize"), ("bit", "u8"), ("x", "u8")]
+KEY = [("key", "bytes:32")]
+MFA = [("msg", "bytes:24"), ("footer", "bytes:24"), ("aad", "bytes:24")]
+
+BACKENDS = {}
+
+
+def l2_backend(name, group, aad, sizes, quick=True, paserk=True, pke=True, public=True, extra=None):
+    """registers harness specs for one backend; returns dict prop -> [H]"""
+    P = "proofs::"
+    out = {k: [] for k in ("C01", "C02", "C04", "C05", "C06", "C12", "C16")}
+    A = 1 if aad else 0
+    q = "qt" if quick else "t"
+
+    def rt(n, m, f, a, tiers):
+        out["C01"].append(H(group, P + n, tiers, timeout=1500, mem=14, mode="lean", replay="native:local_roundtrip",
+                            schema=KEY + MFA, replay_args={"backend": name, "m": m, "f": f, "a": a},
+                            doc="%s local: seal with the library's own nonce path then unseal, every key/nonce/message; |m|=%d |f|=%d |a|=%d" % (name, m, f, a)))
+    rt("local_roundtrip_m0_f0_a0", 0, 0, 0, "t")
+    rt("local_roundtrip_m3_f2", 3, 2, A, q)
+    rt("local_roundtrip_m17_f0", 17, 0, 0, "t")
+    rt("local_roundtrip_m33_f1", 33, 1, A, "t")
+    if public:
+        for n, m, f, a, tiers in (("public_roundtrip_m0_f0_a0", 0, 0, 0, "t"), ("public_roundtrip_m3_f2", 3, 2, A, q)):
+            out["C01"].append(H(group, P + n, tiers, timeout=1500, mem=14, mode="lean", replay="native:public_roundtrip",
+                                schema=MFA, replay_args={"backend": name, "m": m, "f": f, "a": a, "loops": sizes.get("sign_loops", 400)},
+                                doc="%s public: sign with a generated key then verify; |m|=%d |f|=%d |a|=%d" % (name, m, f, a)))
+    # C02 / C12
+    def tam(purpose, n, w, tiers, m=2, f=2, a=A):
+        h = H(group, P + n, tiers, timeout=1500, mem=14, mode="lean", replay="native:%s_tamper" % purpose,
+              schema=TOK + (KEY if purpose == "local" else []) + MFA,
+              replay_args={"backend": name, "m": m, "f": f, "a": a, "w": w},
+              doc="%s %s: tamper class %s on a genuinely sealed token must be rejected" % (name, purpose, n.split("_", 2)[2]))
+        out["C02"].append(h)
+        return h
+    hb = tam("local", "local_tamper_payload_bit_m2", 100, q, 2, 1, 0)
+    out["C12"].append(hb)
+    cls = [("w0_footer_bit", 0), ("w2_footer_grow", 2), ("w3_footer_shrink", 3), ("w8_ct_to_footer", 8), ("w9_footer_to_ct", 9),
+           ("w10_trunc_end", 10), ("w11_trunc_front", 11), ("w12_extend_end", 12), ("w13_extend_front", 13), ("w14_other_key", 14)]
+    if aad:
+        cls += [("w1_aad_bit", 1), ("w4_aad_grow", 4), ("w5_aad_shrink", 5), ("w6_footer_to_aad", 6), ("w7_aad_to_footer", 7)]
+    quick_cls = {"w8_ct_to_footer", "w10_trunc_end", "w6_footer_to_aad", "w14_other_key"}
+    for cn, w in cls:
+        tam("local", "local_tamper_" + cn, w, q if cn in quick_cls else "t", 2, 2, 2 if (aad and w in (1, 4, 5, 6, 7)) else A)
+    if public:
+        tam("public", "public_tamper_payload_bit_m2", 100, q, 2, 1, 0)
+        for cn, w in cls:
+            cn2 = cn.replace("ct_to_footer", "msg_to_footer").replace("footer_to_ct", "footer_to_msg")
+            tam("public", "public_tamper_" + cn2, w, q if cn in {"w8_ct_to_footer", "w12_extend_end"} else "t", 2, 2, 2 if (aad and w in (1, 4, 5, 6, 7)) else A)
+    if not aad:
+        for n in ("local_aad_refused_",) + (("public_aad_refused_",) if public else ()):
+            out["C02"].append(H(group, P + n, q, timeout=1200, mem=14, mode="lean", replay="none",
+                                doc="%s: a non-empty implicit assertion is refused with ClaimsError on seal and unseal" % name))
+    # C04
+    for n in ["local_unseal_arbitrary_n0", "local_unseal_arbitrary_below", "local_unseal_arbitrary_min", "local_unseal_arbitrary_above"] + (
+            ["public_unseal_arbitrary_n0", "public_unseal_arbitrary_below", "public_unseal_arbitrary_above"] if public else []):
+        out["C04"].append(H(group, P + n, q if n.endswith(("_below", "_min")) else "t", timeout=1500, mem=14, mode="full", replay="none",
+                            doc="%s: unseal of arbitrary payload bytes of this length, every Kani memory-safety/panic/overflow check on" % name))
+    # C16
+    for n in ["local_rng_fail_closed_"] + (["public_rng_fail_closed_"] if public else []):
+        out["C16"].append(H(group, P + n, q, timeout=900, mem=10, mode="lean", replay="none",
+                            doc="%s: RNG failure at the draw of nonce()/random() is returned as Err, nothing is produced" % name))
+    if paserk:
+        for n, kind in (("pie_roundtrip_local", "local"), ("pie_roundtrip_secret", "secret")):
+            out["C05"].append(H(group, P + n, q if kind == "local" else "t", timeout=1500, mem=14, mode="lean", replay="native:pie",
+                                schema=[("wkey", "bytes:32"), ("kd", "bytes:%d" % (32 if kind == "local" else sizes["secret_len"]))],
+                                replay_args={"backend": name, "kind": kind, "w": 255},
+                                doc="%s PIE %s: wrap then unwrap returns the key; output length fixed" % (name, kind)))
+        for n, w in (("pie_tamper_w0_bit", 0), ("pie_tamper_w1_relabel", 1), ("pie_tamper_w2_other_key", 2), ("pie_tamper_w3_trunc", 3), ("pie_tamper_w4_extend", 4)):
+            out["C06"].append(H(group, P + n, q if w in (0, 1) else "t", timeout=1500, mem=14, mode="lean", replay="native:pie",
+                                schema=TOK + [("wkey", "bytes:32"), ("kd", "bytes:32")], replay_args={"backend": name, "kind": "local", "w": w},
+                                doc="%s PIE: tamper class %s must be rejected" % (name, n[11:])))
+        out["C16"].append(H(group, P + "pie_rng_fail_closed_", q, timeout=900, mem=10, mode="lean", replay="none", doc="%s PIE: RNG failure => Err" % name))
+        for n in ("pie_unwrap_arbitrary_n0", "pie_unwrap_arbitrary_below", "pie_unwrap_arbitrary_above"):
+            out["C04"].append(H(group, P + n, q if n.endswith("_below") else "t", timeout=1500, mem=14, mode="full", replay="none", doc="%s: pie_unwrap_key on arbitrary bytes" % name))
+        out["C05"].append(H(group, P + "pw_roundtrip_local_default", q, timeout=1500, mem=14, mode="lean", replay="native:pw",
+                            schema=[("pass", "bytes:24"), ("kd", "bytes:32")], replay_args={"backend": name, "kind": "local", "w": 255, "passlen": 2},
+                            doc="%s PBKW local, default parameters, 2-byte password" % name))
+        out["C05"].append(H(group, P + "pw_roundtrip_secret_default_pw0", "t", timeout=1500, mem=14, mode="lean", replay="native:pw",
+                            schema=[("pass", "bytes:24"), ("kd", "bytes:%d" % sizes["secret_len"])], replay_args={"backend": name, "kind": "secret", "w": 255, "passlen": 0},
+                            doc="%s PBKW secret, default parameters, empty password" % name))
+        out["C05"].append(H(group, P + "pw_default_must_succeed_", "t", timeout=900, mem=10, mode="lean", replay="native:pw", schema=[("pass", "bytes:2")],
+                            replay_args={"backend": name, "kind": "local", "w": 255}, doc="%s PBKW: wrap with default parameters always succeeds" % name))
+        out["C05"].append(H(group, P + "pw_roundtrip_local_symbolic_params", "t", timeout=1800, mem=14, mode="lean", replay="none",
+                            doc="%s PBKW: every parameter block the backend's own parser accepts either is refused by wrap or round-trips" % name))
+        for n, w in (("pw_tamper_w0_bit", 0), ("pw_tamper_w1_relabel", 1), ("pw_tamper_w2_other_pw", 2), ("pw_tamper_w3_pw_longer", 3), ("pw_tamper_w4_pw_shorter", 4),
+                     ("pw_tamper_w5_trunc", 5), ("pw_tamper_w6_extend", 6)):
+            out["C06"].append(H(group, P + n, q if w in (0, 2) else "t", timeout=1500, mem=14, mode="lean", replay="native:pw",
+                                schema=TOK + [("pass", "bytes:2"), ("kd", "bytes:32")], replay_args={"backend": name, "kind": "local", "w": w},
+                                doc="%s PBKW: tamper class %s must be rejected" % (name, n[10:])))
+        for n in ("pw_unwrap_arbitrary_n0", "pw_unwrap_arbitrary_below", "pw_unwrap_arbitrary_above"):
+            out["C04"].append(H(group, P + n, q if n.endswith("_below") else "t", timeout=1500, mem=14, mode="full", replay="none", doc="%s: get_params + pw_unwrap_key on arbitrary bytes" % name))
+    if pke:
+        out["C05"].append(H(group, P + "pke_roundtrip_", q, timeout=1800, mem=14, mode="lean", replay="native:pke", schema=[],
+                            replay_args={"backend": name, "w": 255, "out_len": sizes["pke_len"], "loops": sizes.get("pke_loops", 300)},
+                            doc="%s PKE: seal to a generated recipient then unseal; output is exactly %d bytes" % (name, sizes["pke_len"])))
+        for n, w in (("pke_tamper_w0_bit", 0), ("pke_tamper_w1_other_rcpt", 1), ("pke_tamper_w2_trunc", 2), ("pke_tamper_w3_extend", 3)):
+            out["C06"].append(H(group, P + n, q if w == 0 else "t", timeout=1800, mem=14, mode="lean", replay="native:pke", schema=TOK,
+                                replay_args={"backend": name, "w": w}, doc="%s PKE: tamper class %s must be rejected" % (name, n[11:])))
+        for n in ("pke_unseal_arbitrary_below", "pke_unseal_arbitrary_exact", "pke_unseal_arbitrary_above"):
+            out["C04"].append(H(group, P + n, q if n.endswith("_exact") else "t", timeout=1800, mem=14, mode="full", replay="none", doc="%s: unseal_key on arbitrary bytes" % name))
+    for k, hs in (extra or {}).items():
+        out[k] += hs
+    BACKENDS[name] = out
+    return out
+
+
+_v4 = l2_backend("v4", "v4", True, {"secret_len": 64, "pke_len": 96}, extra={
+    "C16": [H("v4", "proofs::local_nonce_is_draw_", "qt", timeout=600, mode="lean", replay="none", doc="v4: the token nonce is exactly the drawn randomness (freshness inherited from the RNG)"),
+            H("v4", "proofs::pw_rng_fail_closed_at0", "qt", timeout=600, mode="lean", replay="none", doc="v4 PBKW: failure of the salt draw => Err"),
+            H("v4", "proofs::pw_rng_fail_closed_at1", "qt", timeout=600, mode="lean", replay="none", doc="v4 PBKW: failure of the nonce draw => Err"),
+            H("v4", "proofs::pke_rng_fail_closed_", "qt", timeout=900, mode="lean", replay="none", doc="v4 PKE: failure of the ephemeral-key draw => Err")]})
+
+
+# ------------------------------------------------------------------------------------------------
+# property assembly
+# ------------------------------------------------------------------------------------------------
+L2_MODELS = [
+    "vmodel::oracle: ideal function — equal transcript => equal output; different transcript (same primitive) => outputs differ in their first 16 bytes; after the harness announces the adversary's message (forbid) a never-queried transcript's output differs from every 16-byte window of that message",
+    "getrandom 0.3 model: fill() writes arbitrary bytes or fails at an armed draw index",
+    "blake2 / sha2 / hmac / hkdf / pbkdf2 / argon2 models: ideal functions of their recorded inputs (argon2 ParamsBuilder::build ranges as in argon2 0.5.3)",
+    "chacha20 / chacha20poly1305 models: keystream block = ideal function of (key, nonce, 0); AEAD tag = ideal function of (key, nonce, aad, ciphertext), checked before XOR; one 64-byte block per instance",
+    "ed25519-dalek / curve25519-dalek models: public key = injective ideal function of the scalar; signature = ideal function of (public key, message), verification accepts exactly it; X25519 commutative ideal function of the unordered pair of public points; from_bytes Ok iff an uninterpreted validity predicate",
+    "stub: paseto_core::pae::pre_auth_encode -> l2::pae_model (index-loop spec model; the C15 harnesses show the real function issues exactly this write sequence)",
+]
+L2_ASSUME = ["ideal-primitive model of the leaf crypto crates (every contract point listed under models_and_stubs)",
+             "Kani lean mode for protocol harnesses: memory-safety/overflow/reachability instrumentation off, property assertions, panics and unwinding assertions on (C04 harnesses run with every check on)",
+             "Result<_, PasetoError> values are consumed with mem::forget (drop glue of Box<dyn Error> is not explored)"]
+
+
+def _collect(prop, backends=None):
+    hs = []
+    for b, tab in BACKENDS.items():
+        if backends and b not in backends:
+            continue
+        hs += tab.get(prop, [])
+    return hs
+
+
+def T(n, tiers="qt", timeout=900, mode="nomem", doc="", mem=12):
+    return H("core_units", "tokens::" + n, tiers, timeout=timeout, mem=mem, mode=mode, doc=doc)
+
+
+_l3_unseal = [
+    T("l3_unseal_exact_p3_f0_a0", doc="L3: unseal of a parsed token (payload 3 B, trailing dot, no assertion) over an arbitrary backend/decoder/validator: Ok iff all three accept; error kinds; call order; decoder/validator never run on an unauthenticated token", mode="full"),
+    T("l3_unseal_exact_p2_f0_a1_nodot", "t", mode="full", doc="L3: same, no footer segment, 1-byte assertion"),
+    T("l3_unseal_exact_p4_f2_a1", "t", mode="full", doc="L3: same, 4-byte payload, 2-byte footer, 1-byte assertion"),
+    T("l3_unseal_exact_p0_f1_a2", "t", mode="full", doc="L3: same, empty payload"),
+    T("l3_unseal_exact_public", "qt", mode="full", doc="L3: verify() path (purpose Public)"),
+]
+_l3_seal = [
+    T("l3_seal_path_n2_m1_f0_a0_r3", "qt", timeout=1500, mem=16, mode="full", doc="L3: seal (library nonce path) -> Display -> FromStr -> unseal hands the backend back exactly the bytes it produced; nonce/encode/seal failures propagate"),
+    T("l3_seal_path_n0_m2_f2_a1_r4", "t", timeout=1500, mem=16, mode="full", doc="L3: same with footer and assertion (public-style empty nonce)"),
+    T("l3_seal_path_n3_m0_f1_a2_r5", "t", timeout=1500, mem=16, mode="full", doc="L3: same, empty message"),
+    T("l3_unit_footer_present", "t", timeout=1500, mode="full", doc="L3: a token with a footer does not parse with the () footer type"),
+    T("l3_unit_footer_absent_dot", "t", timeout=1500, mode="full", doc="L3: trailing '.' (empty footer) parses with () and prints without the dot"),
+    T("l3_unit_footer_absent_nodot", "qt", timeout=1500, mode="full", doc="L3: no footer parses with () and prints identically"),
+]
+
+PROPS["C01"] = Prop(
+    "C01", _l3_seal + _collect("C01"),
+    explanation="L2: each backend's real seal/unseal code runs over ideal primitives with key, RNG output, message, footer and assertion symbolic: sealing through the library's own nonce() path succeeds, has the spec's length and unseals to the same bytes. L3: the generic UnsealedToken::seal / Display / FromStr / SealedToken::unseal code of paseto-core runs over an arbitrary backend, showing the bytes a backend produced are exactly the bytes it is later asked to unseal, with footer and assertion unchanged.",
+    functions=["paseto_core::tokens::{UnsealedToken::seal, dangerous_seal_with_nonce, SealedToken::unseal}", "paseto_core::encodings::{Display, FromStr for SealedToken}",
+               "<backend>::core::{local,public}::{nonce, dangerous_seal_with_nonce, unseal, random, unsealing_key}"],
+    bounds={"quick": "per backend: local |m|=3 |f|=2 (|a|=1 where supported), public same; L3 shapes nonce 2/msg 1/out 3; unwind 150 with unwinding assertions",
+            "thorough": "adds |m| in {0,17,33} (AES block boundaries), empty footer/assertion, L3 shapes with footer/assertion, () footer cases"},
+    outside=["payloads longer than 33 bytes / more than one 64-byte ChaCha block (model bound); the quantifier's 1 MiB payloads",
+             "the real primitives (only their contract is modelled); byte-level agreement between libraries"],
+    models=L2_MODELS, assumptions=L2_ASSUME)
+
+PROPS["C02"] = Prop(
+    "C02", _collect("C02"),
+    explanation="From a genuinely sealed token (library nonce path, symbolic key/message/footer/assertion/RNG) each tamper class is applied and unseal must return Err: one symbolic bit anywhere in nonce/ciphertext/tag/signature; a bit in footer or assertion; footer/assertion grown or shrunk; bytes moved across the footer|assertion and message|footer boundaries; truncation/extension at either end; any other key; v1/v2 with a non-empty assertion. Under the ideal-MAC/signature model Err follows iff the authenticated transcript covers the changed byte and the comparison covers the whole tag and precedes decryption.",
+    functions=["<backend>::core::local::{unseal, keys, preauth_local}", "<backend>::core::public::{unseal, preauth_public}", "digest::Mac::verify / constant_time compare (real code)"],
+    bounds={"quick": "per backend: payload-bit (|m|=2,|f|=1), ciphertext->footer shift, truncation, other key (+ footer->assertion shift where supported); public: payload-bit, message->footer shift, extension",
+            "thorough": "all 15 classes x {local, public}; |m|=2 |f|=2 |a|=2"},
+    outside=["simultaneous corruption of several fields (accepted with negligible probability by any MAC)", "messages longer than 2 bytes in the tamper harnesses"],
+    models=L2_MODELS, assumptions=L2_ASSUME)
+
+PROPS["C12"] = Prop(
+    "C12", _l3_unseal + _collect("C12"),
+    explanation="L3: for every backend behaviour, when V::unseal returns Err the payload decoder and the validator are never invoked and the error returned is the backend's own kind. L2: on a token with one flipped bit the stream cipher model's keystream counter is unchanged (verify-then-decrypt) and the error kind is CryptoError regardless of content.",
+    functions=["paseto_core::tokens::SealedToken::unseal", "<backend>::core::local::unseal"],
+    bounds={"quick": "L3 payload 3 B; L2 per backend |m|=2 single symbolic bit", "thorough": "L3 all shapes"},
+    outside=["'footer reachable only through unverified_footer' is an API-surface fact decided by the compiler, not a solver query"],
+    models=L2_MODELS + ["L3: arbitrary backend AV (every trait method returns arbitrary Ok/Err and bytes), recording Payload/Validate"], assumptions=L2_ASSUME)
+
+_val = [H("core_units", "validation::" + n, "qt", timeout=300, doc=d) for n, d in [
+    ("val_and_then_exact", "and_then chains of three symbolic validators accept iff all accept; the first failing member's error is reported"),
+    ("val_nested_depth3", "nesting depth 3 inside Box"),
+    ("val_slice_vec_n0", "Vec<T> and [T] of length 0 accept"),
+    ("val_slice_vec_n1", "Vec<T> and [T] of length 1"),
+    ("val_slice_vec_n3", "Vec<T> and [T] of length 3 accept iff every member accepts, each member consulted"),
+    ("val_pointers_transparent", "Box<T>, Box<dyn Validate>, Rc<T>, Arc<T> are transparent"),
+    ("val_map_and_novalidation", "map validates the projection; NoValidation accepts everything")]]
+_jv = [H("json_units", "validators::" + n, t, timeout=900, doc=d) for n, t, d in [
+    ("time_exact", "qt", "Time: accept iff (no exp or exp >= now) and (no nbf or nbf <= now); all timestamps within ±2^36 s at ns resolution"),
+    ("time_leeway_exact_exp", "qt", "TimeWithLeeway: exp bound widened by exactly the leeway (leeway < 2^30 s, any ns)"),
+    ("time_leeway_exact_nbf", "qt", "TimeWithLeeway: nbf bound widened by exactly the leeway"),
+    ("time_leeway_both_and_absent", "t", "TimeWithLeeway with exp/nbf presence symbolic"),
+    ("has_expiry_exact", "qt", "HasExpiry accepts iff exp is present"),
+    ("subject_2_2", "qt", "ForSubject: present and equal (2-byte strings), decoys in the other claims"),
+    ("subject_1_2", "t", "ForSubject: different lengths never accepted"),
+    ("subject_0_0", "t", "ForSubject: empty strings; absent claim rejected"),
+    ("issuer_3_3", "qt", "FromIssuer 3-byte strings"), ("issuer_2_3", "t", "FromIssuer different lengths"),
+    ("audience_2_2", "qt", "ForAudience 2-byte strings"), ("audience_3_1", "t", "ForAudience different lengths")]]
+
+PROPS["C11"] = Prop(
+    "C11", _l3_unseal[:1] + [_l3_unseal[-1]] + _val + _jv,
+    explanation="L3: unseal returns claims iff backend, decoder and validator all accept, for a validator with a symbolic verdict. Combinators: member verdicts are symbolic; and_then / [T] / Vec / Box / Rc / Arc / map / NoValidation accept iff the conjunction does. JSON validators: exp/nbf/now/leeway symbolic through the real jiff::Timestamp comparison and Timestamp±Duration arithmetic against a multiplication-free (seconds, nanoseconds) lexicographic oracle.",
+    functions=["paseto_core::validation::*", "paseto_core::tokens::SealedToken::unseal", "paseto_json::{Time, TimeWithLeeway, HasExpiry, ForSubject, FromIssuer, ForAudience}::validate"],
+    bounds={"quick": "|seconds| < 2^36, every nanosecond value, leeway < 2^30 s; strings of 2-3 ASCII bytes; combinator depth 3, slices up to 3",
+            "thorough": "adds presence-symbolic leeway harness, length-mismatch string cases, remaining L3 shapes"},
+    outside=["timestamps outside ±2^36 s (jiff's range is wider)", "strings longer than 3 bytes / non-ASCII (comparison is byte-wise memcmp)"],
+    models=["none: real paseto-core, paseto-json and jiff code"], assumptions=["Kani/CBMC soundness"])
+
+_pae = [H("core_units", "pae::" + n, t, timeout=to, mem=14, doc=d) for n, t, to, d in [
+    ("pae_n0", "qt", 300, "N=0"),
+    ("pae_n1_frag0123", "qt", 900, "N=1, 0..3 fragments of symbolic length 0..600"),
+    ("pae_n2", "t", 1500, "N=2, fragment lengths symbolic 0..600"),
+    ("pae_n3_header3", "t", 1500, "N=3 (v2 local / v1,v2 public shape): header in three fragments"),
+    ("pae_n4_public", "t", 1800, "N=4 (v4 public shape)"),
+    ("pae_n5_local", "t", 1800, "N=5 (v3/v4 local shape), symbolic lengths up to 600"),
+    ("pae_n5_v3public", "t", 1800, "N=5 (v3 public shape, key first)"),
+    ("pae_n8", "t", 1800, "N=8 with multi-fragment pieces"),
+    ("pae_n5_local_small", "qt", 900, "N=5 local shape, fragment lengths 0..2 (quick variant)"),
+    ("pae_n4_public_small", "qt", 900, "N=4 public shape, fragment lengths 0..2 (quick variant)"),
+    ("pae_vec_bytes", "qt", 900, "Vec<u8> writer receives exactly the spec's bytes (3 pieces, symbolic contents)"),
+    ("pae_boundary_shift", "t", 1800, "the same 3 bytes split differently between message|footer|assertion always encode differently")]]
+PROPS["C15"] = Prop(
+    "C15", _pae,
+    explanation="The real pre_auth_encode<N> is executed with a writer that records every write as (pointer, length, 8-byte head); the harness walks that log against the spec: LE64(N), then per piece LE64(total length) followed by its fragments, by pointer identity and length — so contents are arbitrary and fragment lengths symbolic up to 600. The Vec<u8> writer is compared byte-for-byte at small sizes, and boundary-shifted splits of the same bytes are shown to encode differently.",
+    functions=["paseto_core::pae::pre_auth_encode", "paseto_core::encodings::{WriteBytes for Vec<u8>, WriteBytes for &mut W}"],
+    bounds={"quick": "N in {0,1,4,5}; fragments per piece 0..3; lengths 0..600 for N=1, 0..2 for N=4,5; Vec bytes at one 3-piece shape",
+            "thorough": "N in {0,1,2,3,4,5,8}; fragment lengths symbolic 0..600; boundary shifts of 3 bytes"},
+    outside=["N in {6,7}", "the digest/MAC adapters of each backend (one-line forwards to update(), exercised in the L2 harnesses through the hash models' transcripts)"],
+    models=["none"], assumptions=["pointer identity + equal length of a written fragment implies identical bytes"])
+
+PROPS["C05"] = Prop(
+    "C05", _collect("C05"),
+    explanation="Per backend: pie_wrap_key->pie_unwrap_key, pw_wrap_key->pw_unwrap_key (default parameters and every parameter block the backend's parser yields) and seal_key->unseal_key over ideal primitives with wrapping key, password, wrapped key bytes and RNG output symbolic: the operation succeeds, the output has exactly the length the format prescribes, and undoing it returns the same bytes.",
+    functions=["<backend>::core::pie_wrap::{pie_wrap_key, pie_unwrap_key}", "<backend>::core::pw_wrap::{pw_wrap_key, pw_unwrap_key, get_params, Params::pbkdf}", "<backend>::core::pke::{seal_key, unseal_key}"],
+    bounds={"quick": "PIE local key (32 B), PBKW local with default parameters and a 2-byte password, PKE to a generated recipient",
+            "thorough": "adds secret keys (48/64 B), empty password, symbolic parameter blocks"},
+    outside=["passwords longer than 2 bytes (they only enter the KDF oracle)", "the real KDFs' cost/behaviour"], models=L2_MODELS, assumptions=L2_ASSUME)
+
+PROPS["C06"] = Prop(
+    "C06", _collect("C06"),
+    explanation="From a genuinely produced PIE / PBKW / PKE blob each tamper class must make unwrap/unseal return Err: one symbolic bit anywhere (tag, nonce, salt, parameters, ephemeral key, ciphertext), header relabel local<->secret, another wrapping key / password (same length, longer, shorter) / recipient, truncation, extension.",
+    functions=["<backend>::core::{pie_wrap, pw_wrap, pke}::* incl. auth()"],
+    bounds={"quick": "per backend: PIE bit + relabel, PBKW bit + other password, PKE bit", "thorough": "all classes"},
+    outside=["relabel to another version's header (same code with another constant; the version prefix is part of the MAC transcript shown by the bit/relabel classes)"],
+    models=L2_MODELS, assumptions=L2_ASSUME)
+
+PROPS["C16"] = Prop(
+    "C16", _collect("C16"),
+    explanation="Fail closed: the RNG model is armed to fail at a chosen draw index of nonce()/random()/pie_wrap_key/pw_wrap_key (both draws)/seal_key; the operation must return Err. Freshness is inherited from the RNG: the nonce field equals the drawn bytes (v3/v4), so distinct draws give distinct nonces for all keys and messages.",
+    functions=["<backend>::core::*::{nonce, random, pie_wrap_key, pw_wrap_key, seal_key}"],
+    bounds={"quick": "every draw index of each operation (1 or 2 draws)", "thorough": "same"},
+    outside=["the statistical claim that the OS RNG does not repeat over 10^5 calls (not a property of this code)",
+             "draws made inside library models without an error channel (RSA key generation, libsodium random::*)"],
+    models=L2_MODELS, assumptions=L2_ASSUME)
+
+_api = [H("core_units", "api::" + n, t, timeout=to, mem=14, mode="full", doc=d) for n, t, to, d in [
+    ("keytext_local_t0", "qt", 600, "KeyText<Local>: every 9-byte string; accepted iff == 'k4.local.'"),
+    ("keytext_local_t1", "t", 600, "KeyText<Local>: header + 1 char (never valid)"),
+    ("keytext_local_t2", "qt", 900, "KeyText<Local>: header + 2 chars: strict canonical base64url and Display round trip"),
+    ("keytext_local_t3", "qt", 900, "KeyText<Local>: header + 3 chars"),
+    ("keytext_local_t4", "t", 900, "KeyText<Local>: header + 4 chars"),
+    ("keytext_local_t6", "t", 1200, "KeyText<Local>: header + 6 chars"),
+    ("keytext_local_short", "t", 600, "KeyText<Local>: 7-byte strings (shorter than the header) are rejected"),
+    ("keytext_secret_t3", "t", 900, "KeyText<Secret>"), ("keytext_public_t2", "t", 900, "KeyText<Public>"),
+    ("keytext_v3_local_t3", "t", 900, "KeyText with the default PASERK header k3"),
+    ("pie_local_t3", "qt", 900, "PieWrappedKey<Local> FromStr/Display"), ("pie_secret_t4", "t", 900, "PieWrappedKey<Secret>"),
+    ("pw_local_t3", "qt", 900, "PasswordWrappedKey<Local>"), ("pw_secret_t2", "t", 900, "PasswordWrappedKey<Secret>"),
+    ("seal_t3", "qt", 900, "SealedKey"), ("seal_t4", "t", 900, "SealedKey"),
+    ("keyid_lid_44", "t", 1800, "KeyId<Local>: every 51-byte string; accepted iff header + 44 canonical chars; Display round trip"),
+    ("keyid_lid_43", "t", 1800, "KeyId: 43 characters (32 bytes) rejected"), ("keyid_lid_46", "t", 1800, "KeyId: 46 characters (34 bytes) rejected"),
+    ("keyid_sid_44", "t", 1800, "KeyId<Secret>"), ("keyid_pid_44", "t", 1800, "KeyId<Public>"),
+    ("key_fromstr_is_keytext_then_decode", "qt", 900, "Key::from_str = KeyText::from_str then V::decode on exactly the decoded bytes"),
+    ("keyid_roundtrip_eq_ord_hash", "t", 1800, "KeyId: FromStr(Display(id)) == id; Eq/Ord/Hash agree with the 33 bytes"),
+    ("token_p4_nodot", "qt", 900, "SealedToken: every 13-byte string without '.', accepted iff header + canonical base64url; Display round trip"),
+    ("token_p3_nodot", "t", 900, "SealedToken, 3-char payload"), ("token_p0_nodot", "t", 600, "SealedToken, empty payload"),
+    ("token_p4_dot_f0", "qt", 900, "SealedToken with trailing '.': Display drops it"),
+    ("token_p4_dot_f2", "t", 900, "SealedToken payload.footer; a second '.' in the footer segment is rejected"),
+    ("token_p3_dot_f3", "t", 900, "SealedToken 3-char payload, 3-char footer"),
+    ("token_p0_dot_f4", "t", 900, "SealedToken empty payload, 4-char footer"),
+    ("token_p2_dot_f4_dot", "t", 900, "SealedToken 2-char payload, footer region of 4 arbitrary bytes (extra segments rejected)")]]
+PROPS["C09"].harnesses += _api
+PROPS["C09"].functions += ["paseto_core::paserk::{KeyText, KeyId, PieWrappedKey, PasswordWrappedKey, SealedKey}::{from_str, fmt}", "paseto_core::key::Key::from_str",
+                           "paseto_core::encodings::{FromStr, Display for SealedToken}"]
+PROPS["C09"].bounds["quick"] += "; API level: fully symbolic strings of header length + 0..4 characters per parser"
+PROPS["C09"].bounds["thorough"] += "; API level: header + 0..6 characters, key ids of 43/44/46 characters, token strings up to 16 bytes with every dot position"
+PROPS["C09"].models = ["core::slice::memchr::memchr (used by str::split_once('.') in the token parser) is stubbed by a position-announcing version that ASSERTS the announced position is the first '.', so segment lengths stay concrete; a wrong announcement fails the harness",
+                       "arbitrary backend AV for V::decode / Payload / Footer (L3)"]
+
+PROPS["C04"] = Prop(
+    "C04", [h for h in PROPS["C09"].harnesses if h.mode == "full" and ("decode_strict" in h.name or "small_dst" in h.name or h.name.startswith("api::"))] + _l3_unseal[:1] + _collect("C04"),
+    explanation="Kani's default checks (panic, unwrap/expect, index and slice bounds, arithmetic overflow, invalid or misaligned pointer dereference, bad dealloc) are the assertion; inputs are arbitrary. L1: base64 decode on every string of each length and every FromStr/Display pair of paseto-core on fully symbolic strings. L2: each backend's unseal / pie_unwrap_key / get_params / pw_unwrap_key / unseal_key on arbitrary byte strings of the lengths around each minimum (n=0, min-1, min, min+1..2), in full-check mode.",
+    functions=["paseto_core::base64::*", "every FromStr/Display of paseto-core", "<backend>::core::{local,public}::unseal", "<backend>::core::{pie_wrap,pw_wrap,pke}::{pie_unwrap_key, get_params, pw_unwrap_key, unseal_key}"],
+    bounds={"quick": "strings up to header+4 chars; payload lengths min-1 and min per operation", "thorough": "adds lengths 0 and min+1/min+2, longer strings"},
+    outside=["panics or UB inside the real crypto libraries and C code (modelled by contract)", "out-of-memory; PBKW cost above the budget", "AddressSanitizer runs (another technique)"],
+    models=L2_MODELS + PROPS["C09"].models, assumptions=["Kani's memory model and default checks"])
+
+
+def _demote(tab, keep):
+    """reduced quick set for a backend: only harnesses whose name contains one of `keep` stay quick"""
+    for hs in tab.values():
+        for h in hs:
+            if "q" in h.tiers and not any(k in h.name for k in keep):
+                h.tiers = "t"
+    return tab
+
+
+_EXTRA16 = lambda g, nm: {"C16": [
+    H(g, "proofs::pw_rng_fail_closed_at0", "qt", timeout=900, mode="lean", replay="none", doc="%s PBKW: failure of the salt draw => Err" % nm),
+    H(g, "proofs::pw_rng_fail_closed_at1", "qt", timeout=900, mode="lean", replay="none", doc="%s PBKW: failure of the nonce draw => Err" % nm),
+    H(g, "proofs::pke_rng_fail_closed_", "qt", timeout=1200, mode="lean", replay="none", doc="%s PKE: failure of the ephemeral-key draw => Err" % nm)]}
+_x3 = _EXTRA16("v3", "v3")
+_x3["C16"].append(H("v3", "proofs::local_nonce_is_draw_", "qt", timeout=600, mode="lean", replay="none", doc="v3: the token nonce is exactly the drawn randomness"))
+_v3 = l2_backend("v3", "v3", True, {"secret_len": 48, "pke_len": 129}, extra=_x3)
+_v2 = l2_backend("v2", "v2", False, {"secret_len": 64, "pke_len": 96}, extra=_EXTRA16("v2", "v2"))
+# quick tiers: measured costs (14 parallel jobs): v4/v2 token harness ~4 min, v3 token harness ~10-14 min (real ctr crate),
+# PKE ~10 min, PBKW >10 min / >16 GB -> PBKW round-trip and tamper harnesses are thorough-only
+_PBKW_T = ["pw_roundtrip", "pw_tamper", "pw_default_must"]
+_demote(_v4, ["local_roundtrip_m3_f2", "public_roundtrip_m3_f2", "local_tamper_payload_bit", "local_tamper_w8", "local_tamper_w10", "local_tamper_w6", "local_tamper_w14",
+              "public_tamper_payload_bit", "public_tamper_w8", "public_tamper_w12", "rng_fail", "nonce_is_draw", "pie_roundtrip_local", "pie_tamper_w0", "pie_tamper_w1",
+              "pke_roundtrip", "pke_tamper_w0", "local_unseal_arbitrary_below", "local_unseal_arbitrary_min", "public_unseal_arbitrary_below", "pie_unwrap_arbitrary_below",
+              "pw_unwrap_arbitrary_below"])
+_demote(_v3, ["local_roundtrip_m3_f2", "local_tamper_payload_bit", "public_tamper_payload_bit", "rng_fail", "nonce_is_draw", "pie_tamper_w0", "local_unseal_arbitrary_min"])
+_demote(_v2, ["local_roundtrip_m3_f2", "public_roundtrip_m3_f2", "local_tamper_payload_bit", "aad_refused", "local_tamper_w8", "local_rng_fail", "pie_roundtrip_local",
+              "local_unseal_arbitrary_min"])
+for _p in ("C01", "C02", "C04", "C05", "C06", "C12", "C16"):
+    _have = {(h.group, h.name) for h in PROPS[_p].harnesses}
+    PROPS[_p].harnesses += [h for h in _collect(_p) if (h.group, h.name) not in _have]
+# trim the L1 part of the C04 / C09 quick tiers
+for _h in PROPS["C04"].harnesses + PROPS["C09"].harnesses:
+    if _h.group == "core_units" and "q" in _h.tiers:
+        n = _h.name
+        keep = ("l0_" in n or any(n.endswith(x) for x in ("strict_n0", "strict_n2", "strict_n3", "strict_n4", "strict_n5", "strict_n6", "small_dst", "roundtrip_empty",
+                "roundtrip_n1", "roundtrip_n2", "roundtrip_n3", "roundtrip_n4", "agrees_n2", "agrees_n3", "keytext_local_t0", "keytext_local_t2", "keytext_local_t3",
+                "pie_local_t3", "pw_local_t3", "seal_t3", "token_p4_nodot", "token_p4_dot_f0", "key_fromstr_is_keytext_then_decode", "l3_unseal_exact_p3_f0_a0")))
+        if not keep:
+            _h.tiers = "t"
